@@ -63,10 +63,15 @@ CLAIMED.update({
             "indexRow's own body (gjson/tokenizer) is an assumed contract: that every path/token/pair of the row is added is NOT decided; bloom library Add/Test is an assumption; the flush path (handleFlush) and partition IDs / minmax coverage are not yet under C18 contracts (DESIGN §7 C18, §14).", "§7 C18"),
 })
 
+CLAIMED.update({
+    "C17": ("Layout obligations of both writers, for every number of partitions/blocks, every grouping decision and every outcome of every store call, with no bound: in handleFlush (loop invariant + assertion where the footer is written) and in the merge path (copyDataBlock, mergeDataBlocks, processPartitionBlocks, executeMergeGroup as pre/postconditions carried through five loops) the first block's row data starts at offset 0, each block starts where the previous one ends, the recorded RowDataSize is exactly the number of bytes handed to the output file's writer for that block (ghost.written of the DataStore writer; compression stages, hashers and fan-out writers are proved not to be that writer), earlier records are never touched again, blockFilterRegionWriter.add returns (bytes buffered so far, len(section)) so sections are back to back in block order, finish writes the whole region and rebases every block's section offset exactly once by the region's position, and BlockFilterRegionOffset/Size put the region exactly at the end of the row data. On the read side FileMetadata.validate and ReadFileMetadata are under their C19 framing contracts (a file whose metadata violates this layout is rejected).",
+            "Go ints: the layout statements are made for files shorter than 2^63 bytes (flush: stated on the mathematical byte count; merge: ghost flag layoutOvf set exactly when an offset addition leaves the int range). Contiguity of the whole list is the induction over the proved per-step facts (DESIGN §14, on paper). NOT decided: that Rows / UncompressedSize / RowDataHash / BloomEntryCounts equal what the row data contains (only that a copied block keeps Rows and RowDataSize of its source), WriteFileFooter's byte layout beyond what validate/ReadFileMetadata check, codec/JSON/bloom round trips, the public read helpers end to end. io.Writer.Write's contract (a nil error means all of p was accepted) and DataStore.CreateFile handing out the file's writer are extern assumptions.", "§7 C17, §14"),
+})
+
 NOT_APPLICABLE = {
     "C14": "snapshot consistency under concurrent flush/merge is an interleaving-only property; no pre/postcondition of a single call expresses it (DESIGN §8)",
     "C15": "crash consistency needs a crash semantics and durability model (crash Hoare logic) the VC generator does not have (DESIGN §8)",
-    "C26": "statistical statement about hash behaviour; a contract cannot express a probability (sizing mechanism is covered under C17) (DESIGN §8)",
+    "C26": "statistical statement about hash behaviour; a contract cannot express a probability; the sizing mechanism it relies on is not under contract either (DESIGN §8)",
 }
 
 # properties designed but whose contracts are not yet discharged: listed as not
